@@ -1477,6 +1477,9 @@ class FnLower:
         for blk in (e[2], e[3]):
             a, d = assigned([blk[0], blk[1]])
             outer = {x for x in a if isinstance(x, str) and x in env and x not in d}
+            # round 7 (worker T, soundness fix): a mutable slice / Vec passed BARE to a call inside the branch (a re-borrow of a `&mut`) is written by
+            # the callee; the updated value would be lost when the branch's value is bound (found on `HeContext::new`: `let first = if .. { .. f(&mut map) .. }`)
+            outer |= {x[1] for x in a if not isinstance(x, str) and x[1] in env and x[1] not in d and env[x[1]].kind == "list" and getattr(env[x[1]], "mut", False)}
             if outer: self.fail(f"`if` used as a value assigns outer variables {sorted(outer)}")
         ops0 = []
         c = self.ex(e[1], env, ops0)
